@@ -362,6 +362,29 @@ def check_jpd(case, out):
                 out.evals += 1
                 if got is not RAISED and bool(got) != want:
                     out.fail(f"check_independence:{'false_positive' if got else 'false_negative'}", f"{x} _|_ {y} | {Z}: dev={dev:.3g} got={got} vars={V} card={card} values={vals}")
+    # (a'') context form: x independent of y given Z = z for one given state z (event3 as (variable, state) pairs)
+    for x, y in itertools.combinations(V, 2):
+        rest = [v for v in V if v not in (x, y)]
+        for zv in rest[:2]:
+            for zs in range(card[V.index(zv)]):
+                pxyz = T.marg([x, y, zv])
+                pz = sum(p for k, p in pxyz.items() if k[2] == zs)
+                if pz <= 1e-12:
+                    continue  # conditioning on a state of probability 0: nothing is claimed
+                pxy = {(k[0], k[1]): p / pz for k, p in pxyz.items() if k[2] == zs}
+                px, py = {}, {}
+                for (a_, b_), p in pxy.items():
+                    px[a_] = px.get(a_, 0.0) + p
+                    py[b_] = py.get(b_, 0.0) + p
+                dev = max(abs(p - px[a_] * py[b_]) for (a_, b_), p in pxy.items())
+                if IND < dev < DEP:
+                    continue
+                got = out.call("check_independence[context]", jpd.check_independence, [x], [y], [(zv, zs)])
+                out.evals += 1
+                if dev <= IND:
+                    out.cls("context_specific_ci_holds")
+                if got is not RAISED and bool(got) != (dev <= IND):
+                    out.fail(f"check_independence[context]:{'false_positive' if got else 'false_negative'}", f"{x} _|_ {y} | {zv}={zs}: dev={dev:.3g} got={got} vars={V} card={card} values={vals}")
     # (a') set-valued events: x against all remaining variables jointly
     for x in V:
         Y = [v for v in V if v != x]
